@@ -1766,4 +1766,11 @@ LEVEL_TEXT = (
 )
 NSHARDS = 16
 WATCHDOG_S = {"quick": 3600, "thorough": 14400}
-FLOORS = {"quick": {}, "thorough": {}}
+FLOORS = {
+    "quick": {"distinct_nontrivial": 400, "fix_steps_run": 3000, "fix_applied": 1400, "fix_applied:unused": 95,
+              "fix_applied:missing_f": 290, "fix_applied:use_fstrings": 600, "fix_applied:too_many_positional_args": 220,
+              "fix_applied:unused_ignore": 130, "fix_applied:missing_await": 20, "ignore_programs": 280,
+              "ignore_outcome:fixpoint": 160, "ignore_comment_removal_checks": 300, "no_fixpoint_rechecked_to_the_limit": 2,
+              "cli_runs": 4},
+    "thorough": {},
+}
